@@ -887,7 +887,8 @@ func (i StaticInspector) indBytes(x any) ([]byte, bool) {
 }
 
 func (i StaticInspector) eqlf64(a, b float64) bool {
-	return math.Abs(a-b) <= FloatPrecision
+	// a == b covers equal infinities, whose difference is NaN
+	return a == b || math.Abs(a-b) <= FloatPrecision
 }
 
 func (i StaticInspector) lc(x any) (int, int) {
